@@ -184,6 +184,9 @@ def worders_lean(d, opt):
             f'    tryLoad := {mode_fun(d, "try", ".load")}',
             f'    tryCasS := {mode_fun(d, "try", ".casS")}',
             f'    tryCasF := {mode_fun(d, "try", ".casF")}']
+    else:
+        # TryLock* / PrepareRead do not exist in this class: the slots are never executed
+        lines += ['    tryCasS := fun _ => .acq', '    prepCasS := .acq']
     lines.append('  }')
     return '\n'.join(lines)
 
